@@ -128,7 +128,7 @@ def tlc(module, cfg_path, name, workers=8, env=None, timeout=1800, coverage=True
     r.wall = time.time() - t
     r.out_path = out_path
     shutil.rmtree(meta, ignore_errors=True)
-    act_re = re.compile(r"^<(\w+) line \d+, col \d+ to line \d+, col \d+ of module (\w+)>: (\d+):(\d+)")
+    act_re = re.compile(r"^<(\w+) line \d+, col \d+ to line \d+, col \d+ of module (\w+)(?: \([\d ]+\))?>: (\d+):(\d+)")
     with open(out_path, errors="replace") as f:
         for line in f:
             m = re.search(r"(\d+) states generated, (\d+) distinct states found, (\d+) states left", line)
